@@ -78,7 +78,16 @@ func ConvertProtoHeaderToMetadata(
 func AppendToOutgoingContext(ctx context.Context, src []*conformancev1.Header) context.Context {
 	keysVals := make([]string, 0, len(src)*2)
 	for _, hdr := range src {
+		isBinary := strings.HasSuffix(strings.ToLower(hdr.Name), "-bin")
 		for _, val := range hdr.Value {
+			if isBinary {
+				// binary headers are base64-encoded in Header proto, but the
+				// grpc-go library expects them to be unencoded (it encodes
+				// them itself), same as in ConvertProtoHeaderToMetadata
+				if data, err := connect.DecodeBinaryHeader(val); err == nil {
+					val = string(data)
+				}
+			}
 			keysVals = append(keysVals, hdr.Name, val)
 		}
 	}
